@@ -538,12 +538,30 @@ void premature_stream_end(DFS::byte opcode)
 	    << ") instruction\n";
 }
 
-void copy_hfe(bool hfe3, const byte* begin, const byte* end,
-	      std::back_insert_iterator<std::vector<byte>> dest)
+// The data for one side of a track is stored as a sequence of
+// (non-adjacent) blocks, but it is a single bit stream: an HFEv3
+// opcode and its operand, or the bits of one output byte, can be in
+// different blocks.  HfeCopyState is the state which copy_hfe()
+// carries from one block of a track to the next.
+struct HfeCopyState
 {
   int got_bits = 0;
   byte out = 0;
   byte this_op = 0;
+  // When pending_skipbits is non-negative, the next byte is data (it
+  // is not examined to see whether it is an opcode) and that many of
+  // its initial bits are skipped.
+  int pending_skipbits = -1;
+};
+
+void copy_hfe(bool hfe3, const byte* begin, const byte* end,
+	      HfeCopyState& state,
+	      std::back_insert_iterator<std::vector<byte>> dest)
+{
+  int& got_bits(state.got_bits);
+  byte& out(state.out);
+  byte& this_op(state.this_op);
+  int& pending_skipbits(state.pending_skipbits);
   while (begin != end)
     {
       int skipbits = 0;
@@ -574,19 +592,23 @@ void copy_hfe(bool hfe3, const byte* begin, const byte* end,
 
 	    case SKIPBITS_OPCODE:
 	      {
-		skipbits = in;
+		// The operand says how many bits at the start of
+		// the byte which follows it are to be skipped.
 		this_op = 0;
 		if (DFS::verbose)
 		  {
-		  std::cerr << "HFEv3: skipbits: " << skipbits << " bits to skip\n";
+		    std::cerr << "HFEv3: skipbits: " << static_cast<unsigned>(in)
+			      << " bits to skip\n";
 		  }
 		if (in >= 8)
 		  {
-		    std::cerr << "HFEv3: unexpected SKIPBITS argument " << in << "\n";
+		    std::cerr << "HFEv3: unexpected SKIPBITS argument "
+			      << static_cast<unsigned>(in) << "\n";
 		    continue;
 		  }
+		pending_skipbits = in;
 	      }
-	      break;
+	      continue;
 
 	    case RAND_OPCODE:
 	      /* The purpose of RAND_OPCODE is, I think, so that the
@@ -630,7 +652,7 @@ void copy_hfe(bool hfe3, const byte* begin, const byte* end,
 	    }
 	  this_op = 0;
 	}
-      else if (hfe3 && is_hfe3_opcode(in))
+      else if (hfe3 && pending_skipbits < 0 && is_hfe3_opcode(in))
 	{
 	  if (DFS::verbose)
 	    {
@@ -673,6 +695,11 @@ void copy_hfe(bool hfe3, const byte* begin, const byte* end,
       else
 	{
 	  this_op = 0;
+	  if (pending_skipbits >= 0)
+	    {
+	      skipbits = pending_skipbits;
+	      pending_skipbits = -1;
+	    }
 	}
 
       for (int bitnum = 0; bitnum < 8; ++bitnum)
@@ -692,18 +719,13 @@ void copy_hfe(bool hfe3, const byte* begin, const byte* end,
 	  /* the output bit might be a clock bit or it might be
 	     data, we worry about that separately. */
 	  out = static_cast<byte>((out >> 1 ) | bit);
-	  ++got_bits;
+	  if (8 == ++got_bits)
+	    {
+	      *dest++ = out;
+	      out = 0;
+	      got_bits = 0;
+	    }
 	}
-      if (8 == got_bits)
-	{
-	  *dest++ = out;
-	  out = 0;
-	  got_bits = 0;
-	}
-    }
-  if (this_op)
-    {
-      premature_stream_end(this_op);
     }
 }
 
@@ -771,6 +793,7 @@ HfeFile::read_all_sectors(const std::vector<PicTrack>& lut,
       std::vector<byte> track_stream;
       track_stream.reserve(track_len_in_bytes / 2);
       auto begin_offset = side_block_size * side;
+      HfeCopyState copy_state;
       while (begin_offset < track_bytes_read)
 	{
 	  const auto end_offset = std::min(begin_offset + side_block_size,
@@ -795,6 +818,7 @@ HfeFile::read_all_sectors(const std::vector<PicTrack>& lut,
 	  copy_hfe(3 == hfe_version_,
 		   raw_data.data() + begin_offset,
 		   raw_data.data() + end_offset,
+		   copy_state,
 		   std::back_inserter(track_stream));
 	  if (DFS::verbose)
 	    {
@@ -806,6 +830,10 @@ HfeFile::read_all_sectors(const std::vector<PicTrack>& lut,
 #endif
 	    }
 	  begin_offset += raw_data_block_size;
+	}
+      if (copy_state.this_op)
+	{
+	  premature_stream_end(copy_state.this_op);
 	}
 #if ULTRA_VERBOSE
       if (DFS::verbose)
